@@ -849,7 +849,7 @@ func (self *LockDB) checkMillisecondTimeOut(ms int64, glockIndex uint16) {
 		nodeQueues := lockQueue.IterNodeQueues(int32(i))
 		for j, lock := range nodeQueues {
 			if !lock.timeouted {
-				lock.timeoutTime = lock.startTime + int64(lock.command.Timeout/1000) + 1
+				lock.timeoutTime = lock.startTime + (int64(lock.command.Timeout)+999)/1000 + 1
 				if lock.command.Timeout >= MILLISECOND_QUEUE_LENGTH {
 					self.AddTimeOut(lock)
 					nodeQueues[j] = nil
@@ -1110,7 +1110,7 @@ func (self *LockDB) checkMillisecondExpried(ms int64, glockIndex uint16) {
 		nodeQueues := lockQueue.IterNodeQueues(int32(i))
 		for j, lock := range nodeQueues {
 			if !lock.expried {
-				lock.expriedTime = lock.startTime + int64(lock.command.Expried/1000) + 1
+				lock.expriedTime = lock.startTime + (int64(lock.command.Expried)+999)/1000 + 1
 				if lock.command.Expried >= MILLISECOND_QUEUE_LENGTH {
 					self.AddExpried(lock)
 					nodeQueues[j] = nil
